@@ -1,8 +1,8 @@
-\* leg A quick: 2 calls, all environment actions, liveness
-SPECIFICATION FairSpec
+\* leg A quick: 3 calls (two early callers + a later one), capacity 2, no cancel / Close
+SPECIFICATION Spec
 CONSTANTS
-  NCalls = 2
-  MaxDials = 2
+  NCalls = 3
+  MaxDials = 3
   QueueLimit = 2
   ConnCap = 2
   Policy = "code"
@@ -11,13 +11,13 @@ CONSTANTS
   Dev = {}
   NoWgWait = FALSE
   ExactScan = TRUE
-  MaxFaults = 2
+  MaxFaults = 1
   Kinds = {"stale", "dead"}
-  CancelCalls = {1}
-  EnvTClose = TRUE
+  CancelCalls = {}
+  EnvTClose = FALSE
   OrderedStart = TRUE
   WithHist = FALSE
 VIEW ViewNoHist
 INVARIANTS TypeOK FailOnlyWhen AttemptsBounded ErrOnFault ClosedRejects CloseClosesAll QueueBound CapBound NoSpuriousRefusal NoLeak
-PROPERTIES CallsEnd Released
+
 CHECK_DEADLOCK FALSE
